@@ -22,6 +22,7 @@ Grammar for the fallback bodies:
 """
 import ast
 import os
+import re
 
 from harness.common import TranslateError, REPO
 
@@ -254,8 +255,8 @@ def fallback(fn, roles):
 # ------------------------------------------------------------------ _blas_is_applicable
 GEN_ATOMS = {
     'x.dtype != args[0].dtype for x in args[1:]': ('any', '(negb same_dtype)'),
-    'x.dtype not in _BLAS_DTYPES for x in args': ('any', '(negb blas_dtype)'),
-    'x.dtype in _BLAS_DTYPES for x in args': ('all', 'blas_dtype'),
+    'x.dtype not in _BLAS_DTYPES for x in args': ('any', '(negb (native_blas d))'),
+    'x.dtype in _BLAS_DTYPES for x in args': ('all', '(native_blas d)'),
     "x.size > np.iinfo('int32').max for x in args": ('any', '(size >? 2147483647)'),
 }
 FLAG_GENS = {'x.flags.f_contiguous for x in args': 'snd', 'x.flags.c_contiguous for x in args': 'fst'}
@@ -273,6 +274,11 @@ def btest(node):
         g = ast.unparse(node.args[0]).strip('()')
         if g in FLAG_GENS:
             return '(%s %s flags)' % ('forallb' if node.func.id == 'all' else 'existsb', FLAG_GENS[g])
+        m = re.match(r"^x\.dtype\.char (not in|in) '([A-Za-z?]+)' for x in args$", g)
+        if m and ((m.group(1) == 'not in') == (node.func.id == 'any')):
+            # a test on the type code only (it cannot see the byte order)
+            codes = '[%s]' % '; '.join(str(ord(ch)) for ch in m.group(2))
+            return '(negb (dt_char_in d %s))' % codes if m.group(1) == 'not in' else '(dt_char_in d %s)' % codes
         if g in GEN_ATOMS and GEN_ATOMS[g][0] == node.func.id:
             # the per-array tests are uniform for arrays of one tensor space (same dtype, same size)
             return GEN_ATOMS[g][1]
@@ -397,9 +403,10 @@ def translate(repo=None):
          'Definition blas_ravel_order (out_f_contiguous : bool) : order :=',
          '  if out_f_contiguous then %s else %s.' % (o_then, o_else), '',
          '(* _blas_is_applicable for the three arrays (x1, x2, out) of one tensor space:',
-         '   same_dtype = all dtypes equal; blas_dtype = dtype in _BLAS_DTYPES (pinned: float32/64, complex64/128);',
+         '   same_dtype = all dtypes equal; d = (type code, native byte order) of the dtype; native_blas d = dtype in',
+         '   _BLAS_DTYPES (pinned table: native float32/64, complex64/128);',
          '   flags = (c_contiguous, f_contiguous) per array *)',
-         'Definition blas_applicable (same_dtype blas_dtype : bool) (size : Z) (flags : list (bool * bool)) : bool :=',
+         'Definition blas_applicable (same_dtype : bool) (d : dtinfo) (size : Z) (flags : list (bool * bool)) : bool :=',
          '  %s.' % blas_app, '',
          'Definition alias_tree : list stmt :=',
          '  ' + tree_txt + '.', '']
